@@ -58,7 +58,7 @@ impl Prop for C14 {
          (directory markers E U - S F G I / @E @U - @S @F @G @I / @NOA_EN @NOE_EN @J @NOE_SP @NOE_FR @NOE_GE @NOE_IT @NOE_DU, file-name prefixes s_ d_ i_ f_ (+ e_ for FE10), none for Japanese (and English in FE9), Dutch unsupported except FE15, NoOp = identity): \
          expected = directory part + '/' + marker + final component, a single component gets the marker appended; unsupported pairs and paths without a final component => Err; odd-but-resolvable shapes only must not panic. \
          Filesystem clause (real directories, 1..=3 layers, 5 games x 8 languages): a localized write lands at top/expected on disk, localized read / exists / file_exists / resolve / list of the parent address the same location, the unlocalized path is untouched; \
-         for unsupported pairs every localized operation reports an error (resolve: None). Non-trivial: a language with a marker and depth >= 2, or an error case. Distinct = distinct case value."
+         for unsupported pairs every localized operation reports an error (resolve: None). Components spelled like a marker of each family (E, @E, @NOE_SP, s_, e_) occur at every depth; after a localized write the same directories are opened with every other language of the game, and where that language's location differs and holds nothing no localized operation may see the file. Non-trivial: a language with a marker and depth >= 2, or an error case. Distinct = distinct case value."
             .into()
     }
     fn assumptions() -> Vec<String> {
